@@ -1,5 +1,6 @@
 import PdtVerif.Lemmas.CtcAlign
 import PdtVerif.Lemmas.CtcPrefix
+import PdtVerif.Lemmas.CtcRefine
 /-!
 # C05 — CTC prefix search reports true prefix mass, never more, never NaN
 
@@ -14,11 +15,13 @@ Property theorems only.  Three layers:
 Proved for all inputs: the map recursion never exceeds the true mass (`C05_sub`), equals it
 when nothing is pruned (`C05_exact_unpruned`), the forward variables are the alignment
 sums (`C05_forward_eq_mass`), the shape clauses (`C05_shape`), frames beyond an element's
-length do not change its result (`C05_batch_partial`: elements with at least one frame), filler sits behind with mass `-inf`
+length do not change its result (`C05_batch`), filler sits behind with mass `-inf`
 (`C05_filler`).  The pinned array code violates "never NaN" and "slots without a prefix are
 inert": `C05_nan_counterexample`, `C05_poison_counterexample` (both replayed on the
-implementation, `corpus/C05/`).  The repaired array code never produces NaN or `+inf` (`C05_no_nan`).  That the array code
-computes the map recursion (`C05_refines`) is NOT proved; it is checked by the correspondence on every run.
+implementation, `corpus/C05/`).  The repaired array code never produces NaN or `+inf` (`C05_no_nan`), keeps its prefix matrix
+correct (`C05_isprefix_inv`) and computes exactly the map recursion (`C05_refines_step`,
+`C05_refines`), hence reports at most the true mass and exactly the true mass when nothing is
+pruned (`C05_array_sub`, `C05_array_exact_unpruned`).
 -/
 
 namespace PdtVerif.Ctc
@@ -29,6 +32,21 @@ frames (with or without fused extension scores) and every prefix, the forward va
 theorem C05_forward_eq_mass (V : Nat) (frames : List Frame) (p : List Nat) :
     (exact V frames p).1 + (exact V frames p).2 = mass V frames p :=
   exact_eq_mass V frames p
+
+/-- **C05_alignments**: the sum in `mass` ranges over exactly the alignments of length `T` over
+the symbols `0 … V` (tokens and blank), each exactly once. -/
+theorem C05_alignments (V T : Nat) :
+    (∀ a, a ∈ allAlign V T ↔ a.length = T ∧ ∀ s ∈ a, s ≤ V) ∧ (allAlign V T).Nodup ∧
+      (allAlign V T).length = (V + 1) ^ T :=
+  ⟨fun _ => mem_allAlign, nodup_allAlign V T, length_allAlign V T⟩
+
+/-- **C05_mass_collapse**: `mass p` is the sum of the path weights of the alignments whose
+textbook collapse (merge adjacent repeats, then drop blanks) is `p`. -/
+theorem C05_mass_collapse (V : Nat) (frames : List Frame) (p : List Nat) :
+    mass V frames p =
+      ((allAlign V frames.length).map (fun a =>
+        if collapse V a = p then (runAlign V frames a).w else 0)).sum :=
+  mass_eq_collapse_sum V frames p
 
 /-- **C05_sub**: whatever survivors are chosen at each frame (any width, any tie-breaking,
 any pruning whatsoever), the mass the prefix-beam recursion reports for a prefix is
@@ -274,20 +292,16 @@ example :
       (min 9 ((loop true 2 9 2 0 initState (nanFrames.take 1)).1.nb.length * (2 + 1)))
       [20, 19, 18, 3, 4, 5, 2, 16, 17] = true := by decide +kernel
 
-/- TARGET (not proved in this generality): for EVERY `own` (including the empty list, i.e. an
-element of length 0 inside a longer batch)
-  (search fix V width own.length (own ++ extra)).1 = (search fix V width own.length own).1.
-The case `own = []` needs the slot padding of `finish` to be related to the padding the loop
-performs on the first frozen frame; it is covered by the `example` below and by the
-correspondence (lens containing 0 are generated on every run). -/
-
-/-- **C05_batch_partial** (restriction: the element has at least one frame of its own): frames
-at or beyond the element's own length change neither its tokens, nor its lengths, nor its
-masses — the result of the padded run is the result of the run on the element's own frames. -/
-theorem C05_batch_partial (fix : Bool) (V width len : Nat) (own extra : List FrameIn)
-    (hlen : own.length = len) (hne : own ≠ []) :
-    (search fix V width len (own ++ extra)).1 = (search fix V width len own).1 :=
-  search_append_frozen fix V width len own extra hlen hne
+/-- **C05_batch**: frames at or beyond the element's own length (the padding of a batch) change
+neither its tokens, nor its lengths, nor its masses: the result of the padded run is the
+result of the run on the element's own frames — for every element length, including 0, and
+for the pinned and the repaired code alike. -/
+theorem C05_batch (fix : Bool) (V width : Nat) (hw : 0 < width) (own extra : List FrameIn) :
+    (search fix V width own.length (own ++ extra)).1 = (search fix V width own.length own).1 := by
+  by_cases hne : own = []
+  · subst hne
+    exact search_len0 fix V width hw extra
+  · exact search_append_frozen fix V width own.length own extra rfl hne
 
 /-- the length-0 case on a concrete instance: two frozen frames, width 3 -/
 example :
@@ -308,5 +322,198 @@ theorem C05_filler (fix : Bool) (V width : Nat) (ext : List (List XR)) (nonext :
     getX o.nb k = XR.negInf ∧ getX o.b k = XR.negInf ∧ getN o.lens k = 0 ∧
     (∀ k', get2B o.isPrefix k k' = false) :=
   advance_filler fix V width ext nonext blank st sel k hk1 hk2
+
+
+/-! ## The array code computes the map recursion (repaired code)
+
+`WF V st`: the real slots (total mass not `-inf`) of `st` hold pairwise distinct prefixes over
+tokens `< V`, the prefix matrix says exactly which real slot is a prefix of which, `y_prev_last`
+is the last token, the empty prefix has no non-blank mass.  `Rep bm st`: the finite map `bm` is
+the map `prefix ↦ (nb, b)` of the real slots.  `GoodRun`: at every frame the probabilities are
+finite, they are those of the specification frame (`ext[k][v]` = the fused score of `v` after
+the prefix of slot `k`), and the `topk` answer is legitimate (`isTopK`).  `keepsOf`: the
+survivors the array code chose = the prefixes of its real slots after each frame. -/
+
+/-- **C05_isprefix_inv** (with the other slot invariants): a step of the repaired code with a
+legitimate `topk` answer keeps the state well-formed — in particular the new prefix matrix
+`next_is_prefix[j][j']` holds exactly when the prefix of real slot `j` is a prefix of that of
+real slot `j'`, and the real slots keep pairwise distinct prefixes. -/
+theorem C05_isprefix_inv {V : Nat} (hV : 0 < V) (width : Nat) {f : Ctc.Frame} {ext : List (List XR)}
+    {nonext : List XR} {blank : XR} {st : State} (h : WF V st)
+    (hf : FrameLink V f ext nonext blank st) (s : List Nat)
+    (hk : isTopK (advance true V width ext nonext blank st (some s)).cand
+            (min width (st.nb.length * (V + 1))) s = true)
+    (hext : ∀ r ∈ ext, ∀ x ∈ r, x.isFin = true) (hne : ∀ x ∈ nonext, x.isFin = true) :
+    WF V (advance true V width ext nonext blank st (some s)).st :=
+  wf_advance hV width h hf s hk hext hne
+
+/-- **C05_refines_step**: one call of the repaired step function on a well-formed state computes
+one frame of the map-based prefix-beam recursion, pruned to the prefixes of the real output
+slots: candidate construction, merging of an extension into an identical existing prefix,
+masking of merged / invalid candidates and selection together give, for every prefix, exactly
+`beamStep`'s `(nb, b)`. -/
+theorem C05_refines_step {V : Nat} (hV : 0 < V) (width : Nat) {f : Ctc.Frame} {ext : List (List XR)}
+    {nonext : List XR} {blank : XR} {st : State} (h : WF V st)
+    (hf : FrameLink V f ext nonext blank st) (s : List Nat)
+    (hk : isTopK (advance true V width ext nonext blank st (some s)).cand
+            (min width (st.nb.length * (V + 1))) s = true)
+    (hext : ∀ r ∈ ext, ∀ x ∈ r, x.isFin = true) (hne : ∀ x ∈ nonext, x.isFin = true)
+    {bm : Ctc.Beam} (hr : Rep bm st) :
+    Rep (Ctc.beamStep V f (validPrefixes (advance true V width ext nonext blank st (some s)).st) bm)
+      (advance true V width ext nonext blank st (some s)).st :=
+  rep_step hV width h hf s hk hext hne hr
+
+/-- **C05_refines**: a whole run of the repaired array code (any number of frames, any width, any
+legitimate `topk` answers, with or without fused extension scores) stands, after every frame,
+for the map the prefix-beam recursion computes with the same survivors; and the final state is
+well-formed. -/
+theorem C05_refines {V : Nat} (hV : 0 < V) (width : Nat) (frames : List FrameIn)
+    (fs : List Ctc.Frame) (hg : GoodRun V width initState frames fs) :
+    WF V (runAll V width initState frames) ∧
+      Rep (Ctc.beamRun V fs (keepsOf V width initState frames) Ctc.beamInit)
+        (runAll V width initState frames) :=
+  rep_run hV width frames fs initState Ctc.beamInit (wf_init V) rep_init hg
+
+/-- **C05_array_sub**: what `CTCPrefixSearch` (repaired) reports.  For an element with `T ≥ 1`
+valid frames: every slot `k` whose reported probability is a number `q` (not `-inf`) holds a
+blank-free prefix, different from the prefix of every other such slot, and
+`0 ≤ q ≤` the true mass of that prefix (the sum over all alignments collapsing to it);
+`q` equals the mass the prefix-beam recursion with the array code's survivors assigns to it. -/
+theorem C05_array_sub {V : Nat} (hV : 0 < V) (width : Nat) (frames : List FrameIn)
+    (fs : List Ctc.Frame) (hne : frames ≠ []) (hg : GoodRun V width initState frames fs)
+    (hnn : ∀ f ∈ fs, f.Nonneg) (hlen : fs.length = frames.length)
+    (k : Nat) (hk : k < width) (q : Rat)
+    (hq : getX (search true V width frames.length frames).1.probs k = XR.fin q) :
+    let r := (search true V width frames.length frames).1
+    let p := r.prefixes.getD k []
+    q = (Ctc.beamRun V fs (keepsOf V width initState frames) Ctc.beamInit).total p ∧
+    0 ≤ q ∧ q ≤ Ctc.mass V fs p ∧ (∀ x ∈ p, x < V) ∧
+    (∀ k' q', k' < width → getX r.probs k' = XR.fin q' → r.prefixes.getD k' [] = p → k' = k) := by
+  intro r p
+  obtain ⟨hwf, hrep⟩ := C05_refines hV width frames fs hg
+  have hsz := runAll_sized V width frames initState hne
+  obtain ⟨e1, e2⟩ := search_eq_runAll V width frames hne k hk
+  rw [e1] at hq
+  have hv : validB (runAll V width initState frames) k = true :=
+    valid_of_total_fin (by rw [hsz.1]; exact hk) hq
+  have htot := total_of_valid hwf hv
+  rw [htot] at hq
+  have hq' : q = nbq (runAll V width initState frames) k + bq (runAll V width initState frames) k :=
+    (XR.fin.inj hq).symm
+  have hget := hrep.1 (preOf (runAll V width initState frames) k)
+  rw [absGet_valid hwf hv] at hget
+  have hp : p = preOf (runAll V width initState frames) k := e2
+  have hkl : (keepsOf V width initState frames).length = fs.length := by
+    rw [hlen]
+    have : ∀ (fr : List FrameIn) (st : State), (keepsOf V width st fr).length = fr.length := by
+      intro fr
+      induction fr with
+      | nil => intro st; rfl
+      | cons a fr ih => intro st; simp [keepsOf, ih]
+    exact this frames initState
+  have hbeam : q = (Ctc.beamRun V fs (keepsOf V width initState frames) Ctc.beamInit).total p := by
+    unfold Ctc.Beam.total
+    rw [hp, hget, hq']
+  obtain ⟨h0, h1⟩ := Ctc.C05_sub V fs (keepsOf V width initState frames) hnn hkl p
+  refine ⟨hbeam, by rw [hbeam]; exact h0, by rw [hbeam]; exact h1, ?_, ?_⟩
+  · rw [hp]; exact hwf.tok k hv
+  · intro k' q' hk' hq2 hpk
+    obtain ⟨e1', e2'⟩ := search_eq_runAll V width frames hne k' hk'
+    rw [e1'] at hq2
+    have hv' : validB (runAll V width initState frames) k' = true :=
+      valid_of_total_fin (by rw [hsz.1]; exact hk') hq2
+    exact hwf.dist k' k hv' hv (by rw [← e2', hpk, hp])
+
+/-- **C05_array_exact_unpruned**: if, at every frame, every candidate prefix stayed in a real slot
+(the width never forced a prefix out), the reported probability of every real slot is exactly
+the true mass of its prefix. -/
+theorem C05_array_exact_unpruned {V : Nat} (hV : 0 < V) (width : Nat) (frames : List FrameIn)
+    (fs : List Ctc.Frame) (hne : frames ≠ []) (hg : GoodRun V width initState frames fs)
+    (hu : Ctc.Unpruned V fs (keepsOf V width initState frames) Ctc.beamInit)
+    (k : Nat) (hk : k < width) (q : Rat)
+    (hq : getX (search true V width frames.length frames).1.probs k = XR.fin q) :
+    q = Ctc.mass V fs ((search true V width frames.length frames).1.prefixes.getD k []) := by
+  obtain ⟨hwf, hrep⟩ := C05_refines hV width frames fs hg
+  have hsz := runAll_sized V width frames initState hne
+  obtain ⟨e1, e2⟩ := search_eq_runAll V width frames hne k hk
+  rw [e1] at hq
+  have hv : validB (runAll V width initState frames) k = true :=
+    valid_of_total_fin (by rw [hsz.1]; exact hk) hq
+  rw [total_of_valid hwf hv] at hq
+  have hget := hrep.1 (preOf (runAll V width initState frames) k)
+  rw [absGet_valid hwf hv] at hget
+  rw [e2, ← Ctc.C05_exact_unpruned V fs _ hu]
+  unfold Ctc.Beam.total
+  rw [hget]
+  exact (XR.fin.inj hq).symm
+
+
+/-- **C05_array_len**: the prefix of every real slot is no longer than the number of frames. -/
+theorem C05_array_len {V : Nat} (hV : 0 < V) (width : Nat) (frames : List FrameIn)
+    (fs : List Ctc.Frame) (hg : GoodRun V width initState frames fs) (k : Nat)
+    (hv : validB (runAll V width initState frames) k = true) :
+    (preOf (runAll V width initState frames) k).length ≤ frames.length := by
+  obtain ⟨hwf, _⟩ := C05_refines hV width frames fs hg
+  have htm : ∀ (fr : List FrameIn) (st : State), (runAll V width st fr).tm1 = st.tm1 + fr.length := by
+    intro fr
+    induction fr with
+    | nil => intro st; rfl
+    | cons a fr ih =>
+      intro st
+      simp only [runAll, ih, List.length_cons]
+      have : (advance true V width a.ext a.nonext a.blank st a.sel).st.tm1 = st.tm1 + 1 := rfl
+      rw [this]; omega
+  rw [preOf_length hwf hv]
+  have := hwf.lens.1 k
+  rw [htm frames initState] at this
+  simpa [initState] using this
+
+/-! Non-vacuity of `GoodRun` (and hence of `C05_refines`, `C05_array_sub`). -/
+
+/-- two frames over one token, all probabilities 1/2, width 2: at the second frame the extension
+of the empty prefix is merged into the slot already holding `[0]` -/
+def exFrames : List FrameIn := [
+  { ext := [[h2]], nonext := [h2], blank := h2, sel := some [0, 1] },
+  { ext := [[h2], [h2]], nonext := [h2], blank := h2, sel := some [2, 3] }]
+
+theorem exFrames_good : GoodRun 1 2 initState exFrames [halfFrame, halfFrame] := by
+  refine ⟨[0, 1], rfl, ⟨rfl, ?_, ?_⟩, ?_, ?_, by decide +kernel, ?_⟩
+  · intro v hv
+    match v, hv with
+    | 0, _ => rfl
+  · intro k hk v hv
+    rw [(validB_init k).1 hk]
+    match v, hv with
+    | 0, _ => rfl
+  · intro r hr x hx
+    simp only [List.mem_singleton] at hr
+    subst hr
+    simp only [List.mem_singleton] at hx
+    subst hx; rfl
+  · intro x hx
+    simp only [List.mem_singleton] at hx
+    subst hx; rfl
+  · refine ⟨[2, 3], rfl, ⟨rfl, ?_, ?_⟩, ?_, ?_, by decide +kernel, trivial⟩
+    · intro v hv
+      match v, hv with
+      | 0, _ => rfl
+    · intro k hk v hv
+      have hk2 : k < 2 := by
+        have := (validB_iff.1 hk).1
+        rw [(advance_sized true 1 2 _ _ _ _ _).1] at this
+        exact this
+      match k, hk2, v, hv with
+      | 0, _, 0, _ => rfl
+      | 1, _, 0, _ => rfl
+    · intro r hr x hx
+      simp only [List.mem_cons, List.mem_nil_iff, or_false] at hr
+      rcases hr with rfl | rfl <;> (simp only [List.mem_singleton] at hx; subst hx; rfl)
+    · intro x hx
+      simp only [List.mem_singleton] at hx
+      subst hx; rfl
+
+example : (search true 1 2 2 exFrames).1.probs = [.fin (3/4), .fin (1/4)] := by decide +kernel
+example : (search true 1 2 2 exFrames).1.prefixes = [[0], []] := by decide +kernel
+
 
 end PdtVerif.CtcPrefix
